@@ -197,6 +197,7 @@ Lemma walk_unfold : forall lit s rest cur pc d next vo value,
     | Some (child, cpc) =>
         match child, rest with
         | NLeaf _ PNone, _ :: _ =>
+            if negb (forallb straight_buildable rest) then RErr (YPE Generic) else
             match cur with
             | NMap _ _ | NSeq _ _ =>
                 rbind (build_next lit rest value next vo) (fun cont =>
@@ -210,6 +211,7 @@ Lemma walk_unfold : forall lit s rest cur pc d next vo value,
         | _, _ => walk lit rest child cpc d next vo value
         end
     | None =>
+        if negb (forallb straight_buildable rest) then RErr (YPE Generic) else
         rbind (grow lit (s :: rest) cur pc next vo value) (fun g =>
         match coid cur with
         | Some o => ROk (put_obj o (fst (fst g)) d, snd (fst g), snd g)
@@ -232,6 +234,7 @@ Qed.
 Lemma walk_null : forall lit s s2 rest2 cur pc d next vo value ci cpc,
   found_of cur s = ROk (Some (NLeaf ci PNone, cpc)) ->
   walk lit (s :: s2 :: rest2) cur pc d next vo value =
+  if negb (forallb straight_buildable (s2 :: rest2)) then RErr (YPE Generic) else
   match cur with
   | NMap _ _ | NSeq _ _ =>
       rbind (build_next lit (s2 :: rest2) value next vo) (fun cont =>
@@ -423,6 +426,7 @@ Proof.
         rewrite (null_prefix_step _ _ _ _ Hsc Hgo).
         apply (IH c cpc d next vo value d' pc' next' lo Hwf); auto. eapply in_doc_child; eauto.
       * rewrite (walk_null _ _ _ _ _ _ _ _ _ _ _ _ Ef) in H.
+        destruct (negb (forallb straight_buildable (s2 :: rest2))); [discriminate|].
         replace (null_prefix cur (s :: s2 :: rest2)) with true by (simpl; rewrite Hsc; reflexivity).
         assert (Hcur : exists o, coid cur = Some o /\
                   exists cont g, build_next lit (s2 :: rest2) value next vo = ROk cont /\
@@ -440,6 +444,7 @@ Proof.
         destruct (extends_root _ _ (grow_extends _ _ _ _ _ _ _ _ Eg)) as [G1 G2].
         apply (null_put_embeds lo cur s ci cpc _ Ef); [rewrite G1; exact B1|rewrite G2, B2; exact Hlo].
     + rewrite walk_unfold, Ef in H. unfold rbind in H.
+      destruct (negb (forallb straight_buildable rest)); [discriminate|].
       pose proof (found_agrees _ _ _ Ef) as Hsc. simpl in Hsc.
       replace (null_prefix cur (s :: rest)) with false by (simpl; rewrite Hsc; reflexivity).
       destruct (grow lit (s :: rest) cur pc next vo value) as [g|e] eqn:Eg; [|discriminate].
@@ -721,6 +726,7 @@ Proof.
         destruct (putf o c' cur); destruct (seg_int s); reflexivity.
       * (* the existing prefix ends at a null: it becomes the container the next segment needs *)
         rewrite (walk_null _ _ _ _ _ _ _ _ _ _ _ _ Ef) in H. unfold rbind in H.
+        destruct (negb (forallb straight_buildable (s2 :: rest2))); [discriminate|].
         assert (Hcur : exists o, coid cur = Some o /\
                   exists cont g, build_next lit (s2 :: rest2) value next vo = ROk cont /\
                     grow lit (s2 :: rest2) cont cpc (N.succ next) vo value = ROk g /\
@@ -741,6 +747,7 @@ Proof.
         repeat split; auto.
         destruct (null_put cur s (fst (fst g))); destruct (seg_int s); reflexivity.
     + rewrite walk_unfold, Ef in H. unfold rbind in H.
+      destruct (negb (forallb straight_buildable rest)); [discriminate|].
       destruct (grow lit (s :: rest) cur pc next vo value) as [g|e] eqn:Eg; [|discriminate].
       destruct (coid cur) as [o|] eqn:Ec; [|discriminate]. inversion H; subst.
       pose proof (found_agrees _ _ _ Ef) as Hsc. simpl in Hsc.
@@ -749,6 +756,34 @@ Proof.
       rewrite (putf_obj o _ cur (coid_is_obj _ _ Ec)).
       eapply (grow_new lit (s :: rest) cur pc next vo value g (Some cur) s rest eq_refl Eg Hsc Hcr). exact Hsc.
     + rewrite walk_unfold, Ef in H. discriminate.
+Qed.
+
+(* ---------------- a tail that cannot be built is refused before anything is built (fix 45f1b07) -------------- *)
+Lemma walk_missing_unbuildable : forall lit s rest cur pc d next vo value,
+  found_of cur s = ROk None -> forallb straight_buildable rest = false ->
+  walk lit (s :: rest) cur pc d next vo value = RErr (YPE Generic).
+Proof. intros lit s rest cur pc d next vo value Ef Hb. rewrite walk_unfold, Ef. cbn [rbind]. rewrite Hb. reflexivity. Qed.
+
+Lemma walk_null_unbuildable : forall lit s s2 rest2 cur pc d next vo value ci cpc,
+  found_of cur s = ROk (Some (NLeaf ci PNone, cpc)) -> forallb straight_buildable (s2 :: rest2) = false ->
+  walk lit (s :: s2 :: rest2) cur pc d next vo value = RErr (YPE Generic).
+Proof. intros. rewrite (walk_null _ _ _ _ _ _ _ _ _ _ _ _ H), H0. reflexivity. Qed.
+
+(* at the document root: a key the mapping does not hold / a key whose value is null *)
+Theorem create_missing_key_unbuildable : forall lit k ko rest value vo i kvs,
+  find (key_is (PStr k)) kvs = None -> forallb straight_buildable rest = false ->
+  create_query lit (SKey k ko :: rest) value vo (NMap i kvs) = RErr (YPE Generic).
+Proof.
+  intros lit k ko rest value vo i kvs Hf Hb. unfold create_query.
+  destruct vo as [o|]; apply walk_missing_unbuildable; auto; cbn [found_of]; rewrite Hf; reflexivity.
+Qed.
+
+Theorem create_null_key_unbuildable : forall lit k ko s2 rest2 value vo i kvs kn ci,
+  find (key_is (PStr k)) kvs = Some (kn, NLeaf ci PNone) -> forallb straight_buildable (s2 :: rest2) = false ->
+  create_query lit (SKey k ko :: s2 :: rest2) value vo (NMap i kvs) = RErr (YPE Generic).
+Proof.
+  intros lit k ko s2 rest2 value vo i kvs kn ci Hf Hb. unfold create_query.
+  destruct vo as [o|]; eapply walk_null_unbuildable; eauto; cbn [found_of]; rewrite Hf; reflexivity.
 Qed.
 
 Theorem create_query_frame : forall lit segs value vo d d' pc next',
